@@ -154,8 +154,10 @@ def main():
 
     # ---- wrong-arity lines are rejected as a whole by the streaming loop (never shifted into other columns)
     jobs = []
-    for src, delim in (('csv-raw', ','), ('ob-raw-dump', '\t')):
-        cols = ['id', 'a', 'b', 'label']
+    for src, delim, cols in (('csv-raw', ',', ['id', 'a', 'b', 'label']), ('ob-raw-dump', '\t', ['id', 'a', 'b', 'label']),
+                             # a header whose first column has no name (the index column a data-frame export writes): still a column;
+                             # here the column list is the one the tool derives from the header line itself
+                             ('csv-raw', ',', ['', 'a', 'b', 'label'])):
         lines = [delim.join(cols) + '\n']
         kinds = []
         for p in range(1, 41):
@@ -178,12 +180,19 @@ def main():
         jobs.append({'op': 'run_stream', 'columns': cols, 'lines': lines, 'delimiter': delim, 'opts': {'log_parse': False, 'log_rows': True},
                      'args': {'minibatch_size': 4, 'subsampling': 1, 'heuristic': 'Constant', 'data_source': src}})
         jobs[-1]['kinds'] = kinds
+        if cols[0] == '':
+            jobs[-1]['columns_from_header'] = True
     got = PC.pipe_eval(jobs, modules=['pipe_ops'])
     for job, r in zip(jobs, got):
         src = job['args']['data_source']
         if r is None or 'ok' not in r:
             V.violation(f'raises:stream:{src}', f'streaming run failed: {PC.failure_text(r)}', {'data_source': src})
             continue
+        if job.get('columns_from_header'):
+            src += ' (unnamed first header column)'
+            if r['ok'].get('columns_used') != job['columns']:
+                V.violation(f'header-columns:{src}', f'header {job["lines"][0]!r} read as columns {r["ok"].get("columns_used")}; it names {len(job["columns"])} columns: {job["columns"]}', {'header': job['lines'][0]})
+                continue
         used = [int(i) for e in r['ok']['events'] if e['e'] == 'batch' for i in e['ids']]
         good = [p for p, k in enumerate(job['kinds'], start=1) if k in ('ok', 'empty-cells')]
         exp_used = good[:(len(good) // 4) * 4]
